@@ -183,7 +183,7 @@ def validate_events(trace_module, events, *, name, parallel=16, chunk=None, time
         return [], dict(states=0, transitions=0, events=0, runs=0, wall_s=0.0)
     n = len(events)
     if chunk is None:
-        chunk = max(50, min(4000, (n + parallel - 1) // parallel))
+        chunk = max(50, min(12000, (n + parallel - 1) // parallel))
     text = module_text(os.path.join("trace", trace_module + ".tla"))
     jobs = []
     dirs = []
